@@ -45,9 +45,9 @@ theorem epprun_on_plastic_front (p : EPPistonRun.P) (t : ℝ) (h : EPPistonRun.o
   simp only [epv_tree] at *
   split_ifs at * <;> first
     | epv_absurd
-    | (exfalso
-       simp only [epv_cond, lt_self_iff_false] at * <;> first | assumption | contradiction)
     | (simp only [epv_leaf, and_self]; done)
+    | (exfalso
+       simp only [epv_cond, lt_self_iff_false] at * <;> first | assumption | contradiction | linarith)
 
 theorem epprun_speeds (p : EPPistonRun.P) (t : ℝ) :
     HasDerivAt (fun s => p.wv_pl * s) p.wv_pl t ∧ HasDerivAt (fun s => p.wv_el * s) p.wv_el t := by
